@@ -714,9 +714,77 @@ def load_rule(ctx):
     return res
 
 
+def mode_rule(ctx):
+    """NORM-MODE.  The life-cycle histories of this property (and the cache histories of C10) are sequences of
+    `model.train()` / `model.eval()` calls on an *enclosing* module: torch delivers them to a layer by
+    `Module.train(mode)` calling `child.train(mode)` for every child.  A class of the repository that
+    overrides `train` (or `eval`) sits on that path for everything below it, so every returning path of the
+    override must hand the call on -- `super().train(mode)` with the mode it was given -- whatever else it
+    does.  An override that returns early "because the flag already has this value" stops the walk: a layer
+    whose flag differs from its parent's is never reached again."""
+    from ..symexp import paths_of, uwalk
+
+    p = ctx.p
+    res = RuleResult("NORM-MODE", "every override of train() / eval() in a module class hands the mode switch on to nn.Module.train on every returning path")
+    n = 0
+    for cls in p.all_classes():
+        if not cls.is_nn_module():
+            continue
+        for mname in ("train", "eval"):
+            fi = cls.methods.get(mname)
+            if fi is None:
+                continue
+            n += 1
+            params = [a for a, _ in fi.params()]
+            mode = params[0] if params else None
+
+            def delegates(path):
+                exprs = ([path.ret] if path.ret is not None else []) + [part for eff in path.effects for part in eff[1:] if isinstance(part, ast.AST)]
+                for ex in exprs:
+                    for c in uwalk(ex):
+                        if not (isinstance(c, ast.Call) and isinstance(c.func, ast.Attribute) and c.func.attr in ("train", "eval")):
+                            continue
+                        recv = c.func.value
+                        is_super = isinstance(recv, ast.Call) and isinstance(recv.func, ast.Name) and recv.func.id == "super"
+                        is_base = norm_text(recv) in ("nn.Module", "torch.nn.Module") or (isinstance(recv, ast.Name) and recv.id in {b.name for b in cls.repo_mro()[1:]})
+                        if not (is_super or is_base):
+                            continue
+                        args = list(c.args[1:] if is_base and not is_super else c.args) + [k.value for k in c.keywords if k.arg == "mode"]
+                        if c.func.attr == "eval":
+                            if mname == "eval" or (mode is None):
+                                return True
+                            continue
+                        if mname == "eval":
+                            if args and isinstance(args[0], ast.Constant) and args[0].value is False:
+                                return True
+                            continue
+                        if args and mode is not None and norm_text(args[0]) == mode:
+                            return True
+                        if not args and mode is None:
+                            return True
+                return False
+
+            bad = None
+            for path in paths_of(fi.node):
+                if path.kind != "return" and path.kind != "fallthrough":
+                    continue
+                if not delegates(path):
+                    bad = path
+                    break
+            if bad is None:
+                res.ok("%s.%s hands the switch on to nn.Module on every returning path" % (cls.name, mname))
+            else:
+                cond = ", ".join("%s%s" % ("" if pol else "not ", norm_text(raw)[:40]) for et, raw, pol in bad.conds) or "always"
+                node = getattr(bad, "ret_node", None) or fi.node
+                res.fail(Finding("NORM-MODE", fi.module, fi.qualname, node, "%s.%s returns without calling super().%s(%s) when [%s]: the mode switch stops here and never reaches the sub-modules (a normalisation layer below keeps its old mode: no initialisation / no statistics update / inverse refused or offered in the wrong mode)" % (cls.name, mname, "train" if mname == "train" else "eval", mode or "", cond), construct="mode switch propagation of %s.%s" % (cls.name, mname)))
+    if n < 1:
+        raise AnalysisIncomplete("NORM-MODE: no train() / eval() override found (Linear.train is one on the pinned tree)")
+    return res
+
+
 register(
     "C14",
-    [actnorm_rule, batchnorm_life_rule, batchnorm_flow_rule, momentum_rule, load_rule],
+    [actnorm_rule, batchnorm_life_rule, batchnorm_flow_rule, momentum_rule, load_rule, mode_rule],
     "Typestate analysis of ActNorm (abstract store training x initialized x {default,data}^2 x init-count) and BatchNorm with "
     "transfer functions derived by executing the bodies of forward/inverse/train/_initialize found in /repo, under all sequences "
     "of train/eval/forward/inverse/save+load (save+load modelled from the attribute kinds: parameters and persistent buffers "
